@@ -16,6 +16,7 @@ sets / branch dictionary, and the metamorphic isolation comparison itself.
 import copy
 import itertools
 import math
+import warnings
 from fractions import Fraction
 
 import numpy as np
@@ -356,6 +357,14 @@ def stream_tree(c, N, rational):
             c.disagree("control index sharing pattern", view, pm, pc)
         else:
             c.hit("tree/index-values-equal" if idx == mo["idx"] else "tree/index-values-differ")
+        # size of the control part of the decision vector (no orphan entries): N minus the entries of
+        # the non-control variables, all recovered through state_vector()
+        state_entries = set()
+        for m in range(case["E"]):
+            for v in ("x0", "initial_der(x0)"):
+                state_entries.update(tr.idx(v, m))
+        if tr.N - len(state_entries) != mo["count"]:
+            c.disagree("number of control entries", view, mo["count"], tr.N - len(state_entries))
 
 
 def stream_tree_malformed(c):
@@ -381,6 +390,47 @@ def stream_tree_malformed(c):
             continue
         if (outs[q] == "raise") != (r[0] == "raise"):
             c.disagree("control tree accept/reject", {kk: case[kk] for kk in ("ts", "k", "bts")}, outs[q], r[0])
+
+
+def stream_int16(c):
+    """F10: the tree stores control indices as int16; more than 32767 entries are rejected with
+    OverflowError (an explicit precondition of `indices_in_range`), up to there they are exact"""
+    cases, lines = [], []
+    for n, bts in [(16384, [1.0]), (16385, [2.0]), (16385, [1.0])]:  # counts 32767, 32768, 32769
+        ts = [float(i) for i in range(n)]
+        case = dict(ts=ts, E=2, k=2, bts=bts, names=["c0"], use=["c0"], cin_times=[0.0, 1.0, 2.0],
+                    cin={"c0": [[0.0, 0.0, 0.0], [0.0, 1.0, 1.0]]}, controls=["u0"], ctimes={}, planning=None,
+                    mixins=("tree",), rational=True)
+        cases.append(case)
+        tabs = [[[Fraction(0), Fraction(1)], [Fraction(1), Fraction(0)]]]
+        lines.append(dict(op="layout", tree=True, idx=False, E=2, k=2, t0=fr(0.0), bts=[fr(b) for b in bts],
+                          ntimes=n, dist=[[[fr(x) for x in row] for row in tab] for tab in tabs],
+                          ctrl=[{"ts": [fr(t) for t in ts], "pol": "tree"}]))
+    outs = c.model(lines)
+    for q, case in enumerate(cases):
+        s = Spec(times=case["ts"], states=[], controls=["u0"], cinputs=["c0"], E=2, pvals=[[], []],
+                 cin_times=case["cin_times"], cin=case["cin"], eqs=[], bnds={"u0": (-1.0, 1.0)},
+                 tree=dict(forecast_variables=["c0"], branching_times=list(case["bts"]), k=2))
+        r = call(lambda: Transcription(syn_class(("tree",))(spec=s)))
+        c.count(("int16", len(case["ts"]), tuple(case["bts"])))
+        kind = "raise" if r[0] == "raise" else "ok"
+        c.hit("int16/" + kind)
+        if r[0] == "raise" and "OverflowError" not in r[1]:
+            c.fail("ControlTreeMixin raised something else than the int16 overflow: " + r[1],
+                   dict(n=len(case["ts"]), bts=case["bts"]))
+        if r[0] == "ok":
+            tr = r[1]
+            i0, i1 = tr.idx("u0", 0), tr.idx("u0", 1)
+            L = [level_of(case["bts"], t) for t in case["ts"]]
+            if any((a == b) != (lv == 0) for a, b, lv in zip(i0, i1, L)) or len(set(i0) | set(i1)) != tr.N:
+                c.fail("large control tree: sharing pattern wrong (index wrap-around?)",
+                       dict(n=len(case["ts"]), bts=case["bts"]))
+        if outs is not None:
+            mo = outs[q]
+            if (mo == "raise") != (r[0] == "raise"):
+                c.disagree("int16 precondition: accept/reject", dict(n=len(case["ts"]), bts=case["bts"]), mo, r[0])
+            elif mo != "raise" and mo["count"] != r[1].N:
+                c.disagree("int16 precondition: count", dict(n=len(case["ts"]), bts=case["bts"]), mo["count"], r[1].N)
 
 
 # ---------------------------------------------------------------------------------------------
@@ -465,14 +515,24 @@ def run(c):
         "only relevant for ties between different members)",
         "np.argmax returns the first maximal index; NumPy >= 2 raises OverflowError on int16 overflow (F10)",
     ]
+    warnings.filterwarnings("ignore")
     c.prove()
-    with quiet_fd():
-        pass
     stream_tree_malformed(c)
-    stream_flat(c, c.n(30, 300))
-    stream_tree(c, c.n(60, 1200), rational=True)
-    stream_tree(c, c.n(40, 800), rational=False)
-    stream_isolation(c, c.n(40, 500))
+    stream_int16(c)
+    stream_flat(c, c.n(40, 400))
+    stream_tree(c, c.n(100, 1500), rational=True)
+    stream_tree(c, c.n(60, 1000), rational=False)
+    stream_isolation(c, c.n(60, 600))
+    c.exhaustive = False
+    c.notes.append(
+        "tree/flat streams compare the real control_tree_branches and state_vector() index sets with the Lean "
+        "clustering + allocator model (partition of the control entries, number of control entries; the absolute "
+        "index values are reported in the distribution only); the isolation stream is metamorphic on pairs of real "
+        "transcriptions (rows/bounds/seed/objective gradient of every untouched member identical) and reads the "
+        "effective parameter values off the real (A, b) for the routing model; the unbounded claims are the theorems. "
+        "The int16 precondition (F10) is probed at 32767 / 32768 / 32769 control entries (accept, accept, "
+        "OverflowError). Not exercised: dynamic parameters, per-member history of a SHARED control (one decision variable for all members by design)."
+    )
 
 
 # ---------------------------------------------------------------------------------------------
@@ -775,3 +835,15 @@ def stream_isolation(c, N):
                         c.disagree("effective parameter value", dict(pvals=dd["pvals"], m=m, i=i), mo["eff"], rec)
             for i, isc in enumerate(mo["const"]):
                 c.hit("route/const" if isc else "route/ensemble")
+
+
+def replay(c, rp):
+    """re-run the generator stream of the recorded seed and tier (instances derive from the seed only)"""
+    import random
+
+    for f in (rp.get("failures", []) + rp.get("correspondence_disagreements", []))[:5]:
+        print("replaying:", f.get("what"))
+    c.seed = rp.get("seed", c.seed)
+    c.tier = rp.get("tier", c.tier)
+    c.rng = random.Random(c.seed * 1000003 + int(c.pid[1:]))
+    run(c)
